@@ -707,7 +707,8 @@ class CellsImpl(*_cells_impl_base):
         return self.parent.repr_parent() + "." + self.parent.repr_self()
 
     def has_node(self, key):
-        return key in self.data
+        # An uncached cells holds no values, and its key may be unhashable
+        return self.is_cached and key in self.data
 
     def is_scalar(self):  # TODO: Move to HasFormula
         return len(self.formula.parameters) == 0
